@@ -40,6 +40,8 @@ IDX = z3.Function('IDX', DS, Bool)
 LEN = z3.Function('LEN', DS, Bool)
 KEYS = z3.Function('KEYS', DS, Bool)
 ITEMS = z3.Function('ITEMS', DS, Bool)
+KEYS_UNIMPL = z3.Function('KEYS_UNIMPLEMENTED', DS, Bool)   # keys() of a dataset without keys fails with NotImplementedError
+#                                                              (otherwise: keys exist but are refused, e.g. duplicates: AssertionError)
 ORD = z3.Function('ORD', DS, Bool)
 FRESH = z3.Function('FRESH', DS, Bool)
 IREF = z3.Function('IREF', DS, Int)          # where a with_key iteration of a stage without items fails
